@@ -108,6 +108,101 @@ def runOld (g : Geom) : St K → List (Op K) → St K × List (Obs K)
     let rs := runOld g r.1 ops
     (rs.1, r.2 :: rs.2)
 
+/-! ### reference-level model: arrays live in a heap, the caller holds handles (aliasing)
+
+`run` above treats images as values, so "a later integration cannot change an image already returned" and
+"the detector never writes into the array it was given" are true of it by construction.  Here arrays are
+cells of a heap, addressed by index; the caller creates power buffers (`alloc`), may overwrite in place any
+array it holds a handle on (`write`: a buffer it passed in, an image it got back), and the detector
+* `integrate buf dt w`: reads the buffer, allocates `acc + bin(power)·dt·w` as a **new** array and rebinds
+  its accumulator to it (`self.accumulated_charge = self.accumulated_charge + …`, never `+=`);
+* `readOut`: allocates a copy of the accumulator (`.copy()`, or `np.zeros` when nothing was integrated),
+  hands that out and rebinds the accumulator to the scalar 0.
+`known` lists the references handed to the caller, in order (its position in the list is the handle the
+driver protocol uses).  `rStepBad` is a detector that accumulates in place into the caller's buffer and
+returns the accumulator itself — the aliasing the value model cannot express. -/
+
+structure RSt (K : Type) where
+  heap : List (List K) := []
+  acc : Option Nat := none
+  known : List Nat := []
+
+inductive ROp (K : Type) where
+  | alloc (v : List K)
+  | write (r : Nat) (v : List K)
+  | integrate (buf : Nat) (dt w : K)
+  | readOut
+
+inductive RObs where
+  | ref (r : Nat)     -- `alloc` / `read_out` handed out the reference `r`
+  | done
+  | refused           -- integrate raised (wrong size) / write to a reference the caller does not hold
+deriving DecidableEq
+
+/-- the array a reference points to (`[]` for a dangling one) -/
+def RSt.at (st : RSt K) (r : Nat) : List K := st.heap.getD r []
+
+/-- the accumulator as a value -/
+def RSt.accVal (st : RSt K) : Option (List K) := st.acc.map st.at
+
+def rStep (g : Geom) (st : RSt K) : ROp K → RSt K × RObs
+  | .alloc v => ({ st with heap := st.heap ++ [v], known := st.known ++ [st.heap.length] }, .ref st.heap.length)
+  | .write r v =>
+    if st.known.contains r then ({ st with heap := st.heap.set r v }, .done) else (st, .refused)
+  | .integrate buf dt w =>
+    let p := st.at buf
+    if p.length = g.ninput then
+      ({ st with heap := st.heap ++ [accAdd st.accVal (charge (binND g.s g.dims p) dt w)],
+                 acc := some st.heap.length }, .done)
+    else (st, .refused)
+  | .readOut =>
+    ({ heap := st.heap ++ [st.accVal.getD (vzero g.npix)], acc := none,
+       known := st.known ++ [st.heap.length] }, .ref st.heap.length)
+
+def rRun (g : Geom) : RSt K → List (ROp K) → RSt K × List RObs
+  | st, [] => (st, [])
+  | st, op :: ops =>
+    let r := rStep g st op
+    let rs := rRun g r.1 ops
+    (rs.1, r.2 :: rs.2)
+
+/-- the images the read-outs of a history return, each as it is *when it is returned* -/
+def rImages (g : Geom) : RSt K → List (ROp K) → List (List K)
+  | _, [] => []
+  | st, .readOut :: ops => (rStep g st .readOut).1.at st.heap.length :: rImages g (rStep g st .readOut).1 ops
+  | st, op :: ops => rImages g (rStep g st op).1 ops
+
+/-- the history the value model sees: every integration with the content its buffer has *at the call* -/
+def valueOps (g : Geom) : RSt K → List (ROp K) → List (Op K)
+  | _, [] => []
+  | st, .readOut :: ops => .readOut :: valueOps g (rStep g st .readOut).1 ops
+  | st, .integrate buf dt w :: ops => .integrate (st.at buf) dt w :: valueOps g (rStep g st (.integrate buf dt w)).1 ops
+  | st, op :: ops => valueOps g (rStep g st op).1 ops
+
+/-- Bad: the first integration scales the caller's buffer in place and keeps it as accumulator, later ones
+add in place, the read-out returns the accumulator itself -/
+def rStepBad (g : Geom) (st : RSt K) : ROp K → RSt K × RObs
+  | .integrate buf dt w =>
+    let p := st.at buf
+    if p.length = g.ninput then
+      let c := charge (binND g.s g.dims p) dt w
+      match st.acc with
+      | none => ({ st with heap := st.heap.set buf c, acc := some buf }, .done)
+      | some a => ({ st with heap := st.heap.set a (vadd (st.at a) c) }, .done)
+    else (st, .refused)
+  | .readOut =>
+    match st.acc with
+    | none => rStep g st .readOut
+    | some a => ({ st with acc := none, known := st.known ++ [a] }, .ref a)
+  | op => rStep g st op
+
+def rRunBad (g : Geom) : RSt K → List (ROp K) → RSt K × List RObs
+  | st, [] => (st, [])
+  | st, op :: ops =>
+    let r := rStepBad g st op
+    let rs := rRunBad g r.1 ops
+    (rs.1, r.2 :: rs.2)
+
 /-! ### the noisy detector with its parameters as mutable state (setters between operations)
 
 `flat_field`, `dark_current_rate`, `read_noise` and `include_photon_noise` are public attributes that
